@@ -60,6 +60,22 @@ Theorem C12_cursor_pixels_partial : forall l s c x y,
 Proof. exact draw_cursor_pixels. Qed.
 Print Assumptions C12_cursor_pixels_partial.
 
+(** ... and exactly, when the pointer is at or beyond the cursor's hot spot on both axes (no clipping at
+    the top/left edge) - **partial**: after drawCursor the screen shows the cursor's pixel exactly where
+    the cursor image, placed with its hot spot on the pointer, lies on the screen and its mask bit is
+    set, and the screen's own pixel everywhere else.  Missing: a hot spot beyond the pointer
+    (negative paste offset; covered only by [C12_cursor_pixels_partial] and the campaign). *)
+From VD Require Import Proofs.MaskedPasteP.
+Theorem C12_cursor_overlay_partial : forall l s c x y,
+  screen l = Some s -> cur l = Some c -> wf_image s -> wf_image (c_img c) ->
+  c_fx c <= l_x l -> c_fy c <= l_y l -> 0 <= x -> 0 <= y ->
+  let ox := l_x l - c_fx c in let oy := l_y l - c_fy c in
+  exists s', screen (draw_cursor l) = Some s' /\ iw s' = iw s /\ ih s' = ih s /\
+    get s' x y = if inside s x y && inside (c_img c) (x - ox) (y - oy) && mask_at (c_mask c) (x - ox) (y - oy)
+                 then get (c_img c) (x - ox) (y - oy) else get s x y.
+Proof. exact draw_cursor_overlay. Qed.
+Print Assumptions C12_cursor_overlay_partial.
+
 Example C12_cursor_history_nonvacuous :
   let px (r g b : Z) := [r; g; b; 0] in
   let ops := [ LUpdate 1 1 1 1 (px 10 20 30);
